@@ -262,6 +262,25 @@ pub fn eval(e: &Expr, s: &MStore) -> Ev {
       Ok(_) => Ev::Unsure,
       Err(e) => e,
     },
+    Expr::Call(f, args) => {
+      let mut vals = vec![];
+      for a in args { match eval(a, s) { Ev::Val(v) => vals.push(v), other => return other } }
+      let all_f64 = vals.iter().all(|v| matches!(v, SV::F64(_)));
+      let arity = match f.as_str() { "inc" | "bad" | "shadow" => 1, "addtwo" => 2, _ => return Ev::Unsure };
+      if vals.len() != arity { return Ev::Fail("function-arity".into()); }
+      if vals.iter().any(|v| matches!(v, SV::Str(_) | SV::Bool(_))) { return Ev::Fail("function-arg-kind".into()); }
+      if !all_f64 { return Ev::Unsure; }
+      let x = |i: usize| vals[i].as_f64().unwrap();
+      match f.as_str() {
+        "inc" => Ev::Val(SV::f64(x(0) + 1.0)),
+        "addtwo" => Ev::Val(SV::f64(x(0) + x(1))),
+        // binds its input and a local, then fails on an undefined variable
+        "bad" => Ev::Fail("function-body-fails".into()),
+        // its locals are named like the session's variables: x, y, z, p
+        "shadow" => Ev::Val(SV::f64((x(0) * 2.0 + 1.0) - 3.0)),
+        _ => Ev::Unsure,
+      }
+    }
     Expr::MapGet(n, k) => match var(n) {
       Ok(SV::Map(kv)) => match kv.iter().find(|(kk, _)| kk == k) { Some((_, v)) => Ev::Val(v.clone()), None => Ev::Fail("no-such-key".into()) },
       Ok(_) => Ev::Unsure,
@@ -640,6 +659,12 @@ impl Model {
           }
           other => self.either_unknown(name, "element-of-non-tuple", format!("tuple-assign|{}", class_of(other))),
         }
+      }
+
+      Op::Raw { .. } => {
+        let mut v = self.verdict(Must::Ok, After::Same, "prelude".to_string());
+        v.must = Must::Ok;
+        v
       }
 
       Op::SelOpAssign { name, sel: _, op: _, e } => {
